@@ -280,6 +280,8 @@ var endlessRC = []Prog{
 	{"endless-loop", `for { a += 1 }`, false},
 	{"endless-tail-recursion", `f := func(n) { return f(n + 1) }; f(a)`, false},
 	{"endless-for-in", `x := [1]; for v in x { x = append(x, v) }`, false},
+	{"endless-tail-recursion-discarded", `f := func(n) { f(n + 1) }; f(a)`, false},
+	{"endless-tail-recursion-builtins", `f := func(n, acc) { return f(n + len(acc), [n]) }; f(a, [])`, false},
 }
 
 type hostPanicValue struct{ code int }
@@ -306,12 +308,14 @@ func hostPanic(args ...tengo.Object) (tengo.Object, error) {
 func C05_RunContext() {
 	ctxkind := vf.Choice("ctxkind", 3)
 	var p Prog
+	endless := false
 	if ctxkind == 2 {
 		k := vf.Choice("prog", len(hostileRC)+len(endlessRC))
 		if k < len(hostileRC) {
 			p = hostileRC[k]
 		} else {
 			p = endlessRC[k-len(hostileRC)]
+			endless = true
 		}
 	} else {
 		p = hostileRC[vf.Choice("prog", len(hostileRC))]
@@ -340,8 +344,21 @@ func C05_RunContext() {
 	case 2:
 		// a context that is already cancelled when RunContext is entered
 		dc := liveCtx()
-		dc.err = context.Canceled
-		close(dc.done)
+		if !vf.Symbolic() && endless {
+			// native replay of a program that never terminates on its own: in the
+			// engine the schedule may let the VM goroutine start before the waiting
+			// goroutine observes the cancellation; natively the Go scheduler almost
+			// never does, so the same fact - the cancellation arrives while the
+			// script runs - is produced by cancelling from a second goroutine
+			go func() {
+				time.Sleep(3 * time.Millisecond)
+				dc.err = context.Canceled
+				close(dc.done)
+			}()
+		} else {
+			dc.err = context.Canceled
+			close(dc.done)
+		}
 		ctx = dc
 	}
 	polls := 0
